@@ -237,7 +237,7 @@ def configure_v1(config: dict[str, Any]) -> dict[str, Any]:
         for var in config["ibm"]["variables"]:
             instance_variables[var] = "float"
     # The extra forcing fields are state variables
-    for var in conf2["forcing"].get("extra_forcing", []):
+    for var in conf2["forcing"].get("extra_forcing") or []:
         instance_variables[var] = "float"
     for var in config["particle_release"]["variables"]:
         if var in ["mult", "X", "Y", "Z"]:  # Ignore
